@@ -36,7 +36,7 @@ package chpool
 //@   ensures err != nil ==> c == nil {nothing-on-failure}
 
 //@ contract (c *Client) client() (r) props(C11)
-//@   requires c != nil && c.res != nil && c.res.acquired
+//@   requires c != nil && c.res != nil && c.res.acquired && c.res.value != nil
 //@   ensures r == c.res.value.client
 
 //@ contract (c *Client) Do(ctx, q) (err) props(C11)
